@@ -36,7 +36,7 @@ struct LenpHarness : Harness {
     std::vector<std::string> props() const override { return {"C13"}; }
     std::vector<std::string> probes(const std::string &) const override {
         return {"varint_prefix_1", "varint_prefix_2", "varint_prefix_3plus", "buffer_with_offset_and_free_space", "chunk_list_with_empty_chunk", "chunk_list_active_nonzero",
-                "frame_split_inside_prefix", "destination_one_octet_too_small", "over_maximum_refused", "varint_through_header_wrapper", "source_lends_its_window", "prefix_declares_more_than_any_destination", "unmaterialised_length_accepted", "kind_maximum_accepted", "sink_error_mid_frame", "buffer_n_less_than_rest",
+                "frame_split_inside_prefix", "destination_one_octet_too_small", "over_maximum_refused", "second_task_framed_during_a_sink_call", "varint_through_header_wrapper", "source_lends_its_window", "prefix_declares_more_than_any_destination", "unmaterialised_length_accepted", "kind_maximum_accepted", "sink_error_mid_frame", "buffer_n_less_than_rest",
                 "n_beyond_unread_refused", "fragmented_decode", "append_behind_existing_content", "multi_frame_stream_fragmented", "source_interruption_during_decode"};
     }
     uint64_t runs(const std::string &, const Tier &t) const override { return t.thorough() ? 10000000 : 1200000; }
@@ -125,6 +125,7 @@ struct LenpHarness : Harness {
               for (int q = 0; q < n; ++q) { switch (r.below(6)) { case 0: s.push(0); break; case 1: s.push(-EINTR); break; case 2: s.push(-EAGAIN); break; default: s.push((long long)r.range(1, 5)); } }
               o["ks"] = s; }
             if (r.chance(1, 8)) { Json e = Json::arr(); e.push((long long)r.range(0, len + 4)); e.push(HARD_ERRORS[r.below(6)]); o["kerr"] = e; }
+            if (enc && r.chance(1, 5)) { Json ij = Json::arr(); ij.push((long long)r.below(4)); ij.push((long long)r.below(4)); ij.push((long long)r.below(6)); ij.push((long long)r.range(1, 40)); o["intrude"] = ij; }
             ops.push(o);
         }
         p["ops"] = ops; if (r.chance(1, 3)) p["macro_init"] = 1;
@@ -167,6 +168,29 @@ struct LenpHarness : Harness {
         snk.begin_op(o.get("ks"));
         if (o.has("kerr")) { snk.err_pos = o.get("kerr").ati(0, 0); snk.err_code = (int)o.get("kerr").ati(1, EIO); if (snk.err_code <= 0 || snk.err_code == EINTR || snk.err_code == EAGAIN) snk.err_code = EIO; if (snk.err_pos < 0) snk.err_pos = 0; }
         Sink sink; snk.bind(&sink);
+        // optionally a second task frames something of its own while this op's sink driver is being called (cooperative interleaving at the seam)
+        struct Intruder { Ctx *c; int ep, kind; size_t len, oi; bool ran = false; } intr{&c, 0, 0, 0, oi};
+        if (o.has("intrude")) {
+            const Json &ij = o.get("intrude");
+            snk.intrude_at = ij.ati(0, 0); if (snk.intrude_at < 0 || snk.intrude_at > 64) snk.intrude_at = 0;
+            intr.ep = (int)(ij.ati(1, 0) & 3); intr.kind = (int)(ij.ati(2, 0) % 6); if (intr.kind < 0) intr.kind = 0; intr.len = (size_t)(ij.ati(3, 1) < 1 ? 1 : (ij.ati(3, 1) > 200 ? 200 : ij.ati(3, 1)));
+            snk.intruder_arg = &intr;
+            snk.intruder = [](void *a) {
+                Intruder &I = *(Intruder *)a; Ctx &cc = *I.c; I.ran = true; COUNT("probe.second_task_framed_during_a_sink_call");
+                SimSink k2; k2.c = &cc; Sink s2; k2.bind(&s2);
+                const LengthPrefixKind K2 = (LengthPrefixKind)I.kind;
+                size_t L = I.len; if ((uint64_t)L > kind_max(I.kind)) L = (size_t)kind_max(I.kind);
+                Bytes pl(L); for (size_t j = 0; j < L; ++j) pl[j] = pay(I.oi * 13 + 99, j);
+                Bytes store = pl; ssize_t rc;
+                if (I.ep == 0) rc = flenp_memory_to_sink(K2, &s2, store.data(), L);
+                else if (I.ep == 1) { ByteBuffer b; b.data = store.data(); b.size = L; b.used = L; b.offset = 0; rc = flenp_buffer_to_sink(K2, &s2, &b); }
+                else if (I.ep == 2) { ByteBuffer b; b.data = store.data(); b.size = L; b.used = L; b.offset = 0; rc = flenp_buffer_to_sink_n(K2, &s2, &b, L); }
+                else { size_t h = L / 2; ByteBuffer bb[2]; bb[0].data = store.data(); bb[0].size = h; bb[0].used = h; bb[0].offset = 0; bb[1].data = store.data() + h; bb[1].size = L - h; bb[1].used = L - h; bb[1].offset = 0;
+                       ByteChunks bc; bc.chunk = bb; bc.chunks = 2; bc.active = 0; rc = flenp_chunks_to_sink(K2, &s2, &bc); }
+                Bytes want = ref_prefix(I.kind, L); want.insert(want.end(), pl.begin(), pl.end());
+                if (rc != (ssize_t)want.size() || k2.got != want) cc.fail("intruder.frame", "a frame of %zu octets (kind %d, entry point %d) encoded while another encoder's sink call was in progress came out wrong (rc %zd, %zu octets)", L, I.kind, I.ep, rc, k2.got.size());
+            };
+        }
         auto F = [&](const std::string &rule, const char *fmt, ...) __attribute__((format(printf, 3, 4))) {
             char b[512]; va_list ap; va_start(ap, fmt); vsnprintf(b, sizeof b, fmt, ap); va_end(ap);
             c.fail(rule + "." + ep, "op#%zu %s kind=%d: %s", oi, ep.c_str(), k, b);
